@@ -419,6 +419,15 @@ class PyInterp:
             elif args or kwargs:
                 raise NotEvaluable("constructor arguments without __init__")
             return obj
+        if isinstance(f, ast.Name) and f.id == "next" and f.id not in env and c.args and isinstance(c.args[0], (ast.GeneratorExp, ast.ListComp)) \
+                and len(c.args) <= 2 and not c.keywords:
+            # `next(<fresh generator expression>, default)`: the first item (iterators with state of their own are not modelled)
+            items = list(self._iterate(self.eval(c.args[0], env)))
+            if items:
+                return items[0]
+            if len(c.args) == 2:
+                return self.eval(c.args[1], env)
+            raise Raised("StopIteration")
         if isinstance(f, ast.Name):
             if f.id in env and callable(env[f.id]):
                 args, kwargs = self._args(c, env)
